@@ -260,6 +260,38 @@ fn gen_schedule(rng: &mut Rng, maxpat: usize) -> Vec<usize> {
     }
 }
 
+/// Longest-pattern lengths around the values that matter to the buffer
+/// capacity computation (8 * len vs. the default 64 KiB, powers of two).
+pub const BOUNDARY_PATTERN_LENS: [usize; 10] = [8191, 8192, 8193, 16384, 32768, 65535, 65536, 65537, 131072, 100_000];
+
+/// A case with the crate's default buffer capacity whose longest pattern has
+/// exactly `len` bytes; the stream is longer than the pattern, contains it
+/// once and also contains short patterns before and after it.
+fn boundary_case(rng: &mut Rng, len: usize) -> StreamCase {
+    let alpha = b"abcd";
+    let mut long = gen::rand_string(rng, alpha, len);
+    long[len / 2] = b'#'; // make it unique
+    let pats = vec![b"ab#".to_vec(), long.clone(), b"cd".to_vec(), b"dddd#".to_vec()];
+    let head = rng.range(10, 3000);
+    let mut data = gen::rand_string(rng, alpha, head);
+    data.extend_from_slice(&long);
+    let tail = rng.range(len / 2, len + 20_000);
+    data.extend(gen::rand_string(rng, alpha, tail));
+    data.extend_from_slice(b"xxab#xxcdxx");
+    let cfg = Cfg {
+        imp: *rng.pick(&[Imp::TopNnfa, Imp::LowNnfa, Imp::TopCnfa, Imp::LowCnfa]),
+        kind: Kind::Standard,
+        sk: crate::cfg::SK::Unanchored,
+        ci: false,
+        pre: rng.chance(1, 2),
+        dense_depth: None,
+        byte_classes: true,
+    };
+    let schedule = vec![*rng.pick(&[0usize, 4096, 65_536, 1000, 100_000])];
+    let repl: Vec<Vec<u8>> = vec![b"<1>".to_vec(), b"<LONG>".to_vec(), vec![], b"<4>".to_vec()];
+    StreamCase { pats, cfg, data, schedule, spare: None, repl, partial_writes: rng.chance(1, 3) }
+}
+
 fn gen_case(rng: &mut Rng, tier: Tier, force_default_capacity: bool, for_faults: bool) -> StreamCase {
     let mut prof = Profile::nonempty();
     prof.max_len = 8;
@@ -738,6 +770,27 @@ pub fn run(prop: &str, ctx: &Ctx, rep: &mut Report) {
         _ => ctx.tier.pick(1, 2, 20),
     };
     let mut root = Rng::new(ctx.seed).fork(0x57 + ctx.shard as u64);
+    // boundary pattern lengths at the default capacity: every length is
+    // covered on every run (spread over the shards)
+    if prop != "C18" && ctx.tier != Tier::Tiny {
+        for (k, &len) in BOUNDARY_PATTERN_LENS.iter().enumerate() {
+            if !ctx.mine(k) {
+                continue;
+            }
+            let reps = ctx.tier.pick(1, 1, 6);
+            for r in 0..reps {
+                let mut rng = root.fork(0xB0_0000 + (k * 16 + r) as u64);
+                let c = boundary_case(&mut rng, len);
+                if let Some(s) = build(rep, &c) {
+                    rep.tally("boundary_pattern_length_cases");
+                    match prop {
+                        "C07" => c07_check(rep, &c, &s),
+                        _ => c08_check(rep, &c, &s),
+                    }
+                }
+            }
+        }
+    }
     for i in 0..n + n_default {
         let mut rng = root.fork(i as u64);
         let c = gen_case(&mut rng, ctx.tier, i >= n, prop == "C18");
